@@ -399,7 +399,7 @@ impl<'a, R: RealNumberInternalTrait> Interpreter<'a, R> {
                 R::from(number_literal.parse::<f64>().unwrap()).unwrap(),
             )),
             // TODO: apply gcd here.
-            Primitive::Rational(a, b) => Value::Number(Number::Rational(*a, *b as i32)),
+            Primitive::Rational(a, b) => Value::Number(Number::from_ratio(*a as i64, *b as i64)),
         })
     }
 
